@@ -17,6 +17,8 @@ type cutProxy struct {
 	c2s     bool // count client->server bytes (else server->client)
 	count   atomic.Int64
 	onCut   func()
+	stall   time.Duration // when > 0 the proxy does not cut at the offset: it stops forwarding that direction for this long, once
+	stalled atomic.Bool
 	cutOnce sync.Once
 	mu      sync.Mutex
 	conns   []net.Conn
@@ -83,6 +85,25 @@ func (p *cutProxy) pipe(from, to net.Conn, counted bool) {
 			chunk := buf[:n]
 			if counted {
 				left := p.after - p.count.Load()
+				if left <= int64(n) && p.stall > 0 {
+					// a stalled network: the bytes arrive, late (write queues fill up, senders and Free block meanwhile)
+					if left > 0 {
+						to.Write(chunk[:left])
+						chunk = chunk[left:]
+					}
+					p.count.Add(int64(n))
+					if p.stalled.CompareAndSwap(false, true) {
+						time.Sleep(p.stall)
+					}
+					p.after = 1 << 60
+					if len(chunk) > 0 {
+						if _, werr := to.Write(chunk); werr != nil {
+							p.cut(from, to)
+							return
+						}
+					}
+					continue
+				}
 				if left <= int64(n) {
 					if left > 0 {
 						to.Write(chunk[:left])
